@@ -77,6 +77,9 @@ def otherTerm (pi : Rat) (inv : Bool) (alt : Nat) (k : Kind) (a b : Rat) : Optio
   | .inv2 =>
       -- 1/(a t)² = (1/a²)·(1/t²); a shifted argument has no function to drive `similarity_shift`: SymPy
       if b == 0 then (lookup .inv2 alt).map fun e => smulE (CQ.ofRat (1 / (a * a))) (entryE pi inv e.terms) else none
+  | .trap al =>
+      -- `trap(t, alpha)` branch: `alpha^p · sincn(f) · sincn(alpha f)` (the exponent p is read from the source); even in f
+      Gen.trapAlphaPow.bind fun p => simShift inv a b [⟨CQ.ofRat (zpow al p), 0, 0, .sincp al, 1, 0⟩]
   | k =>
       (lookup k alt).bind fun e => simShift inv a b (entryE pi inv e.terms)
 
